@@ -111,3 +111,9 @@ add('C02', 'Hypothesis-generated distorted meshes, materials with evolved intern
     'symmetry, and multi-block vs single-block energy / stiffness / state update with interleaved block element ids. Sampling; order 3 and more materials in the thorough tier.',
     'AD of the global energy is the reference for the second derivative (a different code path from the vmapped element Hessians and the COO assembly); the factories are rebuilt from traced '
     'coordinates with a static parent element and quadrature rule; pressure-projection cells are built eagerly per case; shards that exhaust their time budget report the remainder as inconclusive.')
+add('C15', 'Hypothesis-generated meshes, constants, Newmark parameters, initial fields and variable time-step sequences; history invariants with a checker-side dense Newton minimiser of the library algorithmic energy',
+    'Generated sequences of 1-8 variable time steps: predictor and corrector formulas, discrete momentum balance with the mass matrix taken as the Hessian of the kinetic energy (cross-checked against the '
+    'assembled element masses and density*area), total energy conservation for the trapezoidal rule on linear elasticity, and exact rigid translation; general (gamma, beta) in the unconditionally stable '
+    'range, with and without essential BCs, orders 1-2, linear elastic and neo-Hookean. Sampling.',
+    'The minimiser of the algorithmic energy is computed by the checker (dense Newton), independent of the trust-region solver; cases where Newton does not reach 1e-10 are inconclusive; '
+    'tolerances include the rounding of the acceleration as a difference of displacements.')
